@@ -30,6 +30,10 @@ RULE = ('one case = one edit history (append / set_length from either end / slic
         'prefix and is observed as such) plus 10x the random ones; non-trivial = the history reaches at least 3 different '
         'lengths with at least one non-empty state; distinct by canonical input')
 ASSUMPTIONS = [
+    'the original of every deepcopy / slice and a second object built from the same Python list on every '
+    're-initialisation stay alive (the last 3 of them) and are re-observed after every later op; the model side of that '
+    'observation is empty by construction (Gallina values are immutable), a change is the oracle failure '
+    'copy-shares-state-with-original',
     'set_length(n) is claimed for n >= 0, increase_resolution(k) for k >= 1, Performance for max_shift_steps >= 1, slices '
     'for unit step; a history is judged by the oracle up to its first op outside these (the model is still compared on '
     'the whole history)',
@@ -153,8 +157,11 @@ def _sl(a, b):
     return slice(a[0] if a else None, b[0] if b else None)
 
 
-def _apply(cls, obj, op, ch):
-    """Apply one op to the real object; returns the object to continue with (raises on error)."""
+def _apply(cls, obj, op, ch, sibs=None):
+    """Apply one op to the real object; returns the object to continue with (raises on error).
+
+    On a re-initialisation from an event list a SECOND object is built from the very same Python list and
+    appended to `sibs`: the two must not alias each other (or the caller's list)."""
     from note_seq import events_lib, melodies_lib, drums_lib, chords_lib, lead_sheets_lib, pianoroll_lib
     from note_seq import performance_lib as pl
     code = op[0]
@@ -177,8 +184,13 @@ def _apply(cls, obj, op, ch):
             evs = [_dec(cls, e, ch) for e in es[1]] if es else None
             kw = dict(events=evs, start_step=s0, steps_per_bar=sb, steps_per_quarter=sq)
             if cls == 1:
-                return events_lib.SimpleEventSequence(pad_event=p, **kw)
-            return {2: melodies_lib.Melody, 3: drums_lib.DrumTrack, 4: chords_lib.ChordProgression}[cls](**kw)
+                mk = lambda: events_lib.SimpleEventSequence(pad_event=p, **kw)
+            else:
+                mk = lambda: {2: melodies_lib.Melody, 3: drums_lib.DrumTrack, 4: chords_lib.ChordProgression}[cls](**kw)
+            new = mk()
+            if sibs is not None and evs is not None:
+                sibs.append(mk())          # same `evs` list object
+            return new
         elif code == RESET:
             obj._reset()
         else:
@@ -200,10 +212,15 @@ def _apply(cls, obj, op, ch):
             return copy.deepcopy(obj)
         elif code == REINIT:
             mes, ms, msb, msq, ces, cs, csb, csq = op[1:9]
-            m = melodies_lib.Melody(events=mes, start_step=ms, steps_per_bar=msb, steps_per_quarter=msq)
-            c = chords_lib.ChordProgression(events=[ch[x] for x in ces], start_step=cs, steps_per_bar=csb,
-                                            steps_per_quarter=csq)
-            return lead_sheets_lib.LeadSheet(m, c)
+            mes = list(mes)
+            cev = [ch[x] for x in ces]
+            mk = lambda: lead_sheets_lib.LeadSheet(
+                melodies_lib.Melody(events=mes, start_step=ms, steps_per_bar=msb, steps_per_quarter=msq),
+                chords_lib.ChordProgression(events=cev, start_step=cs, steps_per_bar=csb, steps_per_quarter=csq))
+            new = mk()
+            if sibs is not None:
+                sibs.append(mk())          # same `mes` / `cev` list objects
+            return new
         elif code == RESET:
             obj._reset()
         else:
@@ -284,20 +301,55 @@ def _observe(cls, obj, outcome, ch):
     return ob
 
 
+RETAIN = 3          # how many earlier objects (originals of copies / slices, siblings) stay under observation
+_SNAP_FIELDS = ['iter', 'start_step', 'end_step', 'len', 'steps', 'melody', 'chords']
+
+
+def _snap(cls, obj, ch):
+    """What must not change on an object that no later op is applied to."""
+    out = [_t(lambda: [_enc(cls, e, ch) for e in obj]),
+           _t(lambda: _int(obj.start_step)),
+           _t(lambda: _int(obj.end_step)),
+           _t(lambda: _int(len(obj))),
+           _t(lambda: [_int(x) for x in obj.steps])]
+    if cls == 5:
+        out.append(_t(lambda: [_int(e) for e in obj.melody]))
+        out.append(_t(lambda: [ch.index(c) for c in obj.chords]))
+    return out
+
+
 def impl(case):
     inp = case['input']
     cls = inp['cls']
     ch = _chords()
     obj = _build(cls, inp['init'])
     trace = []
-    for op in inp['ops']:
+    retained = []        # [object, snapshot, step it was set aside at, opcode]
+    for i, op in enumerate(inp['ops']):
+        old = obj
+        sibs = []
         try:
-            obj = _apply(cls, obj, op, ch)
+            obj = _apply(cls, obj, op, ch, sibs)
             outcome = 0
         except Exception as e:  # noqa
             name = type(e).__name__
             outcome = _EXC_CODE.get(name, ['EXC', name if not str(e).startswith('slice-returned-') else str(e)])
-        trace.append(_observe(cls, obj, outcome, ch))
+        if outcome == 0:
+            # the original of a copy / slice stays alive, and so does a second object built from the same list:
+            # nothing is applied to them any more, so nothing about them may change
+            if op[0] in (DEEPCOPY, SLICE) and obj is not old:
+                retained.append([old, _snap(cls, old, ch), i, op[0]])
+            for sb in sibs:
+                retained.append([sb, _snap(cls, sb, ch), i, op[0]])
+            retained = retained[-RETAIN:]
+        ob = _observe(cls, obj, outcome, ch)
+        moved = []
+        for r, snap, at, code in retained:
+            now = _snap(cls, r, ch)
+            if now != snap:
+                moved.append([at, code, [k for k in range(len(snap)) if now[k] != snap[k]][0]])
+        ob.append(moved)
+        trace.append(ob)
     return trace
 
 
@@ -308,7 +360,9 @@ def model_input(case):
 
 
 def model_output(case, m):
-    return m
+    # Gallina values are immutable: an object no op is applied to cannot change.  The last field of every
+    # observation (retained objects that changed) is therefore empty on the model side by construction.
+    return [ob + [[]] for ob in m]
 
 
 # ---------------------------------------------------------------- the property on the implementation
@@ -350,7 +404,7 @@ def _sustained(mel):
 
 
 def _check_exc(ob):
-    names = ['outcome', 'iter', 'start_step', 'end_step', 'len', 'steps', 'index', 'x1', 'x2', 'x3', 'x4']
+    names = ['outcome', 'iter', 'start_step', 'end_step', 'len', 'steps', 'index', 'x1', 'x2', 'x3', 'x4', 'x5']
     for k, v in enumerate(ob[1:], 1):
         if _is_exc(v):
             return {'kind': 'observation-raises', 'what': names[k], 'exc': v[1]}
@@ -511,9 +565,15 @@ def oracle(case, io):
     if not isinstance(io, list) or len(io) != len(ops) or (io and io[0] == 'HARNESS-EXC'):
         return {'kind': 'harness-exception', 'detail': str(io)[:200]}
     ch = _chords()
-    prev = _observe(cls, _build(cls, inp['init']), 0, ch)
+    prev = _observe(cls, _build(cls, inp['init']), 0, ch) + [[]]
     pad = inp['init'][0] if cls == 1 else None
     for i, (op, ob) in enumerate(zip(ops, io)):
+        if ob[-1]:
+            # an object set aside earlier (the original of a deepcopy / slice, or a second object built from the
+            # same Python list) changed although no op was applied to it
+            at, code, k = ob[-1][0]
+            return {'kind': 'copy-shares-state-with-original', 'cls': CLS[cls], 'step': i, 'opcode': op[0],
+                    'set_aside_at_step': at, 'set_aside_by_opcode': code, 'changed': _SNAP_FIELDS[k]}
         if not _in_claim(cls, op):
             return None          # the property makes no claim about the rest of this history
         where = {'cls': CLS[cls], 'step': i, 'opcode': op[0]}
@@ -783,6 +843,13 @@ def corpus():
         c(5, [], [[REINIT, [60, -1, -2, 62], 4, 16, 4, [1, 1, 2, 0], 4, 16, 4], [SLICE, [1], [3]], [SLICE, [-1], []]]),
         c(5, [], [[REINIT, [60, -1], 0, 16, 4, [1, 1, 2], 0, 16, 4], [REINIT, [60, 130], 0, 16, 4, [1, 1], 0, 16, 4],
                   [APPEND, 128, 1], [APPEND, 5, 5], [SETLEN, 4], [INCRES, 3], [DEEPCOPY], [RESET]]),
+        # copies, slices and objects built from one list must not share state (seeded C17-5)
+        c(4, [], [[REINIT, 0, [1, [1, 1, 3, 3]], 16, 16, 4], [DEEPCOPY], [APPEND, 2], [SETLEN, 2, 0], [SETLEN, 5, 1]]),
+        c(1, [0], [[REINIT, 0, [1, [1, 2, 3]], 8, 16, 4], [DEEPCOPY], [SETLEN, 5, 1], [SLICE, [1], []], [APPEND, 7]]),
+        c(1, [0], [[REINIT, 0, [1, [1, 2, 3]], 8, 16, 4], [APPEND, 4], [SETLEN, 1, 0]]),
+        c(3, [], [[REINIT, 0, [1, [[36], [], [38]]], 0, 16, 4], [APPEND, [42]], [DEEPCOPY], [SETLEN, 0, 1]]),
+        c(5, [], [[REINIT, [60, -2, 62], 0, 16, 4, [1, 1, 2], 0, 16, 4], [DEEPCOPY], [APPEND, 64, 3], [SETLEN, 2],
+                  [SLICE, [], [1]], [SETLEN, 3]]),
         # melody padding ends a sustained note / does not add a second NOTE_OFF
         c(2, [], [[APPEND, 60], [SETLEN, 3, 0], [SETLEN, 5, 0], [APPEND, 62], [APPEND, -1], [SETLEN, 9, 0],
                   [SETLEN, 12, 1], [INCRES, 2], [SLICE, [2], [-3]], [DEEPCOPY]]),
